@@ -713,11 +713,11 @@ func (w *DispatchWorld) refSigningSecret(sg *SignSpec, at time.Time) (string, bo
 			if sc.ID != ref {
 				continue
 			}
-			from := Epoch.Add(time.Duration(sc.ValidFrom) * time.Second)
+			from := w.Spec.secAt(sc.ValidFrom)
 			if at.Before(from) {
 				continue
 			}
-			if sc.ValidUntil != nil && !at.Before(Epoch.Add(time.Duration(*sc.ValidUntil)*time.Second)) {
+			if sc.ValidUntil != nil && !at.Before(w.Spec.secAt(*sc.ValidUntil)) {
 				continue
 			}
 			cs = append(cs, cand{sc.ID, sc.Value, from})
